@@ -360,6 +360,30 @@ def run(prog: Program, L: Ledger) -> None:
     L.ok("A5", "dispatch-functions", "src/quansino", "scanned")
 
 
+def family_dispatch(prog: Program, leaf: str, max_leaves: int = 4):
+    """Result classes of every +/* expression over one move kind (used by C11/C05: their composite guarantees hold
+    for the *specialised* composite only).  Returns [(expression text, result class name | 'raises …')]."""
+    w = World(prog, "move")
+    k = w.names.index(leaf)
+    out = []
+    for n in range(2, max_leaves + 1):
+        for shp in shapes(n):
+            t = decorate(shp, iter([k] * n), {}, [0])
+            try:
+                r, _exp, _leaves = w.evaluate(t)
+                out.append((tree_text(t, w.names), r.cls.name if isinstance(r, Obj) else repr(r)))
+            except PyRaise as exc:
+                out.append((tree_text(t, w.names), f"raises {exc.exc_type}"))
+    for n_mul in (2, 3):
+        for t in (("mul", ("leaf", k), n_mul, False), ("add", ("leaf", k), ("mul", ("leaf", k), n_mul, False)), ("add", ("mul", ("leaf", k), n_mul, False), ("leaf", k))):
+            try:
+                r, _exp, _leaves = w.evaluate(t)
+                out.append((tree_text(t, w.names), r.cls.name if isinstance(r, Obj) else repr(r)))
+            except PyRaise as exc:
+                out.append((tree_text(t, w.names), f"raises {exc.exc_type}"))
+    return out
+
+
 def _cm(p: Obj) -> str:
     v = p.attrs.get("composite_move_type")
     if isinstance(v, ClsV):
